@@ -226,11 +226,12 @@ pub struct SemOpts {
 /// Run one case. Returns the observation record for the semantic judge and (when programs,
 /// costs or traces were requested) the record for the machine-level judge.
 pub fn run_case(idx: usize, case: &Value, o: &SemOpts) -> (Value, Option<Value>, Vec<Value>) {
-    let fl = Fl::from_json(&case["fl"]);
+    let mut fl = Fl::from_json(&case["fl"]);
+    fl.sp = case.get("sp").and_then(|v| v.as_u64()).unwrap_or(0) as u8;
     let pat = ast::render_pattern(&case["ast"], fl);
     let mut rec = serde_json::Map::new();
     rec.insert("rid".into(), json!(idx));
-    for k in ["fam", "ast", "ng", "names", "fl", "hays"] {
+    for k in ["fam", "ast", "ng", "names", "fl", "hays", "sp"] {
         if let Some(v) = case.get(k) {
             rec.insert(k.into(), v.clone());
         }
